@@ -191,9 +191,11 @@ class KexGex:
     def _parse_kexdh_gex_group(self, m):
         self.p = m.get_mpint()
         self.g = m.get_mpint()
-        # reject if p's bit length < 1024 or > 8192
+        # reject if p is not positive, or its bit length < 1024 or > 8192
+        # (bit_length ignores the sign, and _generate_x would never terminate
+        # for a negative modulus)
         bitlen = util.bit_length(self.p)
-        if (bitlen < 1024) or (bitlen > 8192):
+        if (self.p < 1) or (bitlen < 1024) or (bitlen > 8192):
             raise SSHException(
                 "Server-generated gex p (don't ask) is out of range "
                 "({} bits)".format(bitlen)
